@@ -22,7 +22,7 @@ from . import common
 
 ID = "C01"
 LEVEL = "exploration"
-KNOBS = {"p_zero_attempts": 0.04, "p_per_class": 0.7, "p_single_call": 0.45, "max_calls": 4, "p_budget": 0.2,
+KNOBS = {"p_firing_timeout": 0.12, "p_zero_attempts": 0.04, "p_per_class": 0.7, "p_single_call": 0.45, "max_calls": 4, "p_budget": 0.2,
          "p_generous": 0.7, "p_ok": 0.1, "p_retryable": 0.8, "p_abort": 0.1, "p_decisions": 0.2, "p_hostile": 0.05}
 RULE = ("seeded swarm: max_attempts 0..8, per-class limits 0..3 on 0-3 classes, UNKNOWN cap None/0..3, strategy tables "
         "with holes, optional budget, outcome scripts mixing all 8 classes and both causes, 1-4 calls on one policy "
@@ -35,7 +35,18 @@ BUDGETS = {"quick": (60000, 90), "thorough": (2200000, 285)}
 def gen(seed, tier="quick"):
     scn = G.gen_retry(seed, KNOBS)
     r = random.Random(seed ^ 0xC01)
-    if scn["mode"] == "async" and len(scn["calls"]) > 1 and r.random() < 0.5:
+    if len(scn["calls"]) > 1 and scn["entry"] != "decorator" and r.random() < 0.4:
+        # caps are changed on the live policy object between calls (attribute assignment or in-place edit)
+        for c in scn["calls"][1:]:
+            if r.random() < 0.7:
+                patch = {}
+                if r.random() < 0.6:
+                    patch["max_unknown"] = r.choice([None, 0, 1, 2])
+                if r.random() < 0.6:
+                    patch["per_class"] = {k: r.choice([0, 1, 2]) for k in r.sample(G.CLASSES, r.randint(0, 2))}
+                if patch:
+                    c["before"] = (c.get("before") or []) + [["reconfigure", patch, r.choice(["assign", "in_place"])]]
+    elif scn["mode"] == "async" and len(scn["calls"]) > 1 and r.random() < 0.5:
         # overlapping calls on ONE policy object: each call's caps must hold on their own
         scn["concurrent"] = True
         for c in scn["calls"]:
@@ -69,8 +80,19 @@ def oracle(scn, trace):
     ent = entry_name(scn)
     calls = split_calls(trace)
     M = max(cfg["max_attempts"], 0)
+    eff = dict(cfg)
     for cid in sorted(calls):
         cf = calls[cid]
+        # caps in force for this call (the caller may have reconfigured the live policy object)
+        script = scn["calls"][cid - scn.get("cid_base", 0)] if 0 <= cid - scn.get("cid_base", 0) < len(scn["calls"]) else {}
+        for op in script.get("before") or []:
+            if op[0] == "reconfigure":
+                eff = dict(eff)
+                if "max_unknown" in op[1]:
+                    eff["max_unknown"] = op[1]["max_unknown"]
+                if "per_class" in op[1]:
+                    eff["per_class"] = dict(op[1]["per_class"])
+        cfg = eff
         n = len(cf.attempts)
         if n > M:
             out.append(V("R1", "more invocations than max_attempts", {"call": cid, "invocations": n, "max_attempts": cfg["max_attempts"], "entry": ent}))
@@ -102,7 +124,8 @@ def execute(scn):
 
     res = common.execute_retry(scn, orc)
     # R5 differential: only without shared budget/breaker state
-    if len(scn["calls"]) > 1 and not scn["cfg"].get("budget") and not scn["cfg"].get("breaker") and not scn.get("concurrent"):
+    reconf = any(op[0] == "reconfigure" for c in scn["calls"] for op in (c.get("before") or []))
+    if len(scn["calls"]) > 1 and not scn["cfg"].get("budget") and not scn["cfg"].get("breaker") and not scn.get("concurrent") and not reconf:
         calls = holder["calls"]
         for j in range(1, len(scn["calls"])):
             if j not in calls or calls[j].begin is None:
